@@ -57,10 +57,16 @@ class ScenarioFamily(Family):
 
         sc = case['scenario']
         tr, final, meta = engine.run_scenario(sc, workdir=WORK if self.workdir else None)
-        ix = oracles.evaluate(sc, tr, final, meta, [prop])
+        also = ALSO.get(prop, ())
+        ix = oracles.evaluate(sc, tr, final, meta, [prop] + [p for p in also if p in self.props or True])
         engine.maybe_gc()
         res = Result()
-        res.violations = [v for v in ix.V if v['prop'] == prop]
+        res.violations = []
+        for v in ix.V:
+            if v['prop'] == prop:
+                res.violations.append(v)
+            elif v['prop'] in also:  # a clause of `prop` that is decided by another property's oracle on this workload
+                res.violations.append({'prop': prop, 'clause': f"{v['prop']}:{v['clause']}", 'mech': v['mech'], 'w': v['w']})
         res.counters = dict(ix.C)
         res.counters['records'] = len(tr)
         res.fingerprint = ix.fingerprint()
@@ -72,6 +78,10 @@ class ScenarioFamily(Family):
                       'trace_head': [{k: v for k, v in r.items() if k not in ('snap', 'hl', 'oid', 'before')} for r in tr[:25]]}
         return res
 
+
+# clauses of one property that are decided by another property's oracle on the same trace
+# (C13: 'eviction never changes what gets processed: still handled exactly once and can still be awaited')
+ALSO = {'C13': ('C01', 'C03')}
 
 # counter keys that make a scenario non-trivial for a property (>=1 non-vacuous oracle evaluation)
 NONTRIVIAL = {
